@@ -71,6 +71,12 @@ type poller struct {
 //
 //go:norace
 func (p *poller) addConn(c *Conn) error {
+	if !p.g.beginAdd() {
+		// the engine is stopping: do not open what nobody would close.
+		_ = c.closeWithError(net.ErrClosed)
+		return net.ErrClosed
+	}
+	defer p.g.endAdd()
 	fd := c.fd
 	if fd >= len(p.g.connsUnix) {
 		err := fmt.Errorf("too many open files, fd[%d] >= MaxOpenFiles[%d]",
@@ -109,6 +115,13 @@ func (p *poller) addConn(c *Conn) error {
 //
 //go:norace
 func (p *poller) addDialer(c *Conn) error {
+	if !p.g.beginAdd() {
+		// the engine is stopping; the caller reports the error.
+		c.onConnected = nil
+		_ = c.closeWithError(net.ErrClosed)
+		return net.ErrClosed
+	}
+	defer p.g.endAdd()
 	fd := c.fd
 	if fd >= len(p.g.connsUnix) {
 		err := fmt.Errorf("too many open files, fd[%d] >= MaxOpenFiles[%d]",
